@@ -151,3 +151,15 @@ Example C01_nonvacuous_hole :
   poly_contains (-360) (reclose o) [HPoly (reclose ho)] (8, 12) = true /\
   poly_contains (-360) (reclose o) [HPoly (reclose ho)] (8, 8) = false.
 Proof. exact nonvacuous_hole. Qed.
+
+(* ---- the specification's integer sign test is the textbook crossing-number rule (GeomP5.v):
+   an edge (a,b) is counted by [evenodd] iff exactly one endpoint is strictly above the query
+   latitude and the crossing abscissa ax + (py-ay)(bx-ax)/(by-ay), computed in Q, is > px *)
+From Coq Require Import QArith.
+From GV Require Import GeomP5.
+
+Theorem C01_east_z_textbook : forall p a b,
+  east_z p (a, b) = true <->
+  ~ (py p < py a <-> py p < py b) /\ (inject_Z (px p) < abscissa p a b)%Q.
+Proof. exact east_z_textbook. Qed.
+Print Assumptions C01_east_z_textbook.
